@@ -30,7 +30,10 @@ def worlds(tier):
     cfg2 = cfg_rec(T2, "ALLOW_UNKNOWN", "<<<<5,2>>,<<5,2>>>>", fparams(T2, dmax="<<11,11>>", dmin="<<1,1>>", minPts="<<0,0>>"), cd="<<5,3>>")
     w["ring_fp_gt"] = dict(
         Dataset="<< <<%s, %s, %s>>, <<%s>> >>" % (o(2, 0, "car"), o(0, 3, "false_positive"), o(-3, 1, "pedestrian"), o(1, 2, "car")),
-        EstVariants="<< <<%s, %s>>, <<%s, %s>>, <<>> >>" % (o(2, 1, "unknown", 85, 0), o(0, 2, "car", 40, 0), o(1, 1, "car", 70, 0), o(-3, 0, "pedestrian", 65, 0)),
+        # the fourth variant pairs the FP-labelled ground truth (its estimate becomes an FP without ground truth) BEFORE a pair that fails its
+        # threshold (an FP that keeps its ground truth), in one frame
+        EstVariants="<< <<%s, %s>>, <<%s, %s>>, <<>>, <<%s, %s>> >>" % (o(2, 1, "unknown", 85, 0), o(0, 2, "car", 40, 0), o(1, 1, "car", 70, 0), o(-3, 0, "pedestrian", 65, 0),
+                                                                      o(0, 2, "car", 45, 0), o(-3, 0, "pedestrian", 62, 0)),
         CritVariants="<< %s, %s >>" % (fparams(T2, dmax="<<5,5>>", dmin="<<1,1>>"), fparams(T2, dmax="<<9,9>>", dmin="<<3,3>>")),
         Pf="[targets |-> %s, thr |-> <<5,1>>]" % T2, TheCfg=cfg2)
     return w
